@@ -32,7 +32,61 @@ def _nt(case: Dict[str, Any], M: Model, stats: List[Dict[str, Any]]) -> bool:
     return False
 
 
+def _opfail(case: Dict[str, Any]) -> CaseResult:
+    """The failing node is one of tawazi's own operator nodes (`x / 0`, `x % 0`, `x // 0` written in the describing
+    function): it fails the call like any other node - named, located at the line of the describing function where
+    the operator was written, the ZeroDivisionError as the cause - and nothing downstream of it runs."""
+    import asyncio
+
+    from tawazi.errors import TawaziBaseException
+
+    from .. import prog, sched
+
+    res = CaseResult()
+    P = case["prog"]
+    res.nontrivial = True
+    res.cls("operator-node-fails")
+    try:
+        b = prog.build(P, is_async=bool(case.get("async")), mc=case.get("mc", 2))
+    except BaseException as e:  # noqa: BLE001
+        res.viol("build-error", f"building raised {type(e).__name__}: {e}")
+        return res
+    ex = sched.Exec("free")
+    exc = None
+    try:
+        with ex:
+            if case.get("async"):
+                asyncio.run(b.dag())
+            else:
+                b.dag()
+    except BaseException as e:  # noqa: BLE001
+        if isinstance(e, (KeyboardInterrupt, sched.HarnessSignal)):
+            raise
+        exc = e
+    tag = f" [operator {case['op']} by zero, async={case.get('async')} mc={case.get('mc')}]"
+    if exc is None:
+        res.viol("failure-swallowed", "the operator node divides by zero but the call returned" + tag)
+        return res
+    if not isinstance(exc, TawaziBaseException):
+        res.viol("failure-wrong-type", f"the call raised {type(exc).__name__}: {exc}" + tag)
+    elif not isinstance(exc.__cause__, ZeroDivisionError):
+        res.viol("failure-wrong-exception", f"__cause__ is {exc.__cause__!r}, not the ZeroDivisionError of the operator" + tag)
+    else:
+        msg = str(exc)
+        if case["op"] not in msg:
+            res.viol("failure-no-id", f"message {msg!r} does not name the operator node" + tag)
+        if "prog.py:" not in msg:
+            res.viol("failure-no-location", f"message {msg!r} does not point at the line of the describing function where the operator was written" + tag)
+    entered = {e["site"] for e in ex.events if e["k"] == "ENTER"}
+    late = entered & set(case["downstream"])
+    if late:
+        res.viol("failure-descendant-ran", f"{sorted(late)} depend on the failed operator node but were started" + tag)
+    return res
+
+
 def run_case(case: Dict[str, Any]) -> CaseResult:
+    if case.get("family") == "opfail":
+        return _opfail(case)
     return sc.evaluate(case, ORACLES, _nt)
 
 
@@ -77,7 +131,29 @@ def _fan(draw: Any, tier: str) -> Dict[str, Any]:
 
 
 @st.composite
+def _opfail_case(draw: Any) -> Dict[str, Any]:
+    from .. import gen
+
+    def call(fn: str, i: int, args: Any) -> Dict[str, Any]:
+        return {"k": "call", "fn": fn, "site": gen.site(i), "mark": True, "args": args, "kwargs": {}, "active": None,
+                "unpack": None, "tags": [], "out": f"v{i}"}
+
+    op = draw(st.sampled_from(["truediv", "floordiv", "mod"]))
+    res_ = lambda: draw(st.sampled_from(list(gen.RES)))  # noqa: E731
+    fns = {"f0": {"kind": "int", "res": res_()}, "f1": {"kind": "term", "res": res_()}, "f2": {"kind": "term", "res": res_()},
+           "f3": {"kind": "term", "res": res_()}}
+    body = [call("f0", 0, []), call("f1", 1, []),
+            {"k": "op", "op": op, "a": ["v", "v0"], "b": ["c", 0], "out": "q"},
+            call("f2", 2, [["v", "q"]]), call("f3", 3, [["v", "v2"], ["v", "v1"]])]
+    P = {"name": "P", "params": [], "fns": fns, "body": body, "ret": ["T", [["v", "v0"], ["v", "v1"], ["v", "v3"]]]}
+    return {"family": "opfail", "prog": P, "op": op, "async": draw(st.booleans()), "mc": draw(st.integers(1, 3)),
+            "downstream": [gen.site(2), gen.site(3)]}
+
+
+@st.composite
 def _cases(draw: Any, tier: str) -> Dict[str, Any]:
+    if draw(st.integers(0, 19)) == 0:
+        return draw(_opfail_case())
     if draw(st.booleans()):
         return draw(_fan(tier))
     c = draw(sc.sched_case(tier=tier, modes=("ctl", "ctl", "free", "ctl-ex"), min_sites=2, max_sites=9,
